@@ -216,6 +216,7 @@ class Integer(int, AnyAtomicType):
         if isinstance(value, cls):
             return
         elif isinstance(value, str):
+            value = collapse_white_spaces(value)
             if cls.pattern.match(value) is None:
                 raise cls._invalid_value(value)
             elif cls._lower_bound is not None and int(value) < cls._lower_bound:
